@@ -131,7 +131,15 @@ class ExcHierarchy:
         modname, _, cname = name.rpartition(".")
         m = self.c.sibling_module(modname)
         if m is not None and cname in m.classes:
-            out.extend(self.canonical(b) for b in m.classes[cname].bases)
+            for b in m.classes[cname].bases:
+                if "." not in b and not hasattr(builtins, b):
+                    # a name that arrived through ``from .x import *``
+                    for star in m.star_imports:
+                        sm = self.c.sibling_module(star)
+                        if sm is not None and (b in sm.classes or b in sm.imports):
+                            b = f"{star}.{b}"
+                            break
+                out.append(self.canonical(b))
         else:
             out.append(B + "Exception")  # unknown library class: assume a plain Exception
         return out
@@ -186,6 +194,38 @@ def _digits_guard(call: ast.Call) -> bool:
 
 
 HEX = set("0123456789ABCDEFabcdef")
+
+
+def _chr_guard(call: ast.Call) -> bool:
+    """``chr(NAME)`` after ``if NAME > C: raise`` (C <= 0x10FFFF) where NAME = int(<hex>, 16)."""
+    if len(call.args) != 1 or not isinstance(call.args[0], ast.Name):
+        return False
+    name = call.args[0].id
+    st = call
+    while not isinstance(st, ast.stmt):
+        st = parent(st)
+    blk = _block_of(st)
+    if blk is None:
+        return False
+    upper = nonneg = False
+    for prev in blk[: blk.index(st)]:
+        if isinstance(prev, ast.Assign) and any(isinstance(t, ast.Name) and t.id == name for t in prev.targets):
+            upper = False
+            nonneg = isinstance(prev.value, ast.Call) and dotted(prev.value.func) == "int" and _hex_loop_guard(prev.value)
+        if isinstance(prev, ast.If) and not prev.orelse and prev.body and isinstance(prev.body[-1], ast.Raise):
+            t = prev.test
+            if (
+                isinstance(t, ast.Compare)
+                and len(t.ops) == 1
+                and isinstance(t.left, ast.Name)
+                and t.left.id == name
+                and isinstance(t.comparators[0], ast.Constant)
+                and isinstance(t.comparators[0].value, int)
+            ):
+                c = t.comparators[0].value
+                if (isinstance(t.ops[0], ast.Gt) and c <= 0x10FFFF) or (isinstance(t.ops[0], ast.GtE) and c <= 0x110000):
+                    upper = True
+    return upper and nonneg
 
 
 def _hex_loop_guard(call: ast.Call) -> bool:
@@ -410,7 +450,11 @@ class EscapeAnalysis:
             elif n == "json.dumps":
                 add([B + "TypeError", B + "ValueError"], "json.dumps of an arbitrary value")
             elif n == B + "chr":
-                if not (call.args and isinstance(call.args[0], ast.Constant)):
+                if call.args and isinstance(call.args[0], ast.Constant):
+                    pass
+                elif _chr_guard(call):
+                    self._discharge(fi, call, "chr(): preceded by `if code > MAX: raise` with MAX <= 0x10FFFF; code comes from int(<hex digits>, 16) >= 0")
+                else:
                     add([B + "ValueError", B + "OverflowError"], "chr() of a computed code point")
             elif n == B + "int" and call.args:
                 a0 = call.args[0]
@@ -447,7 +491,7 @@ class EscapeAnalysis:
         if attr in ("read_text", "read_bytes"):
             add([B + "OSError", B + "ValueError", B + "LookupError"], "reading a file")
         elif attr in ("is_file", "is_dir", "exists") and not call.args:
-            add([B + "OSError", B + "ValueError"], "Path stat (3.12 re-raises e.g. ENAMETOOLONG; embedded NUL)")
+            add([B + "OSError"], "Path stat (pathlib re-raises everything but ENOENT/ENOTDIR/EBADF/ELOOP, e.g. ENAMETOOLONG)")
         elif attr in ("decompress", "flush") and any(n.startswith("?.") for n in names) and self._zlib_receiver(call, fi):
             add(["zlib.error"], "zlib decompression")
         elif attr == "decode" and not call.args and any(n.startswith("?.") for n in names):
